@@ -450,6 +450,8 @@ impl EncodeAttributeValue for PasswordAlgorithms {
 //@rules R5P R4P
 //@prefix
     #[verifier::loop_isolation(false)]
+    #[verifier::spinoff_prover]
+    #[verifier::rlimit(100)]
 //@sub "len = attr.encode(attr_ctx)?;" => "let vx_r = attr.encode(attr_ctx); len = vx_r?;"
 //@sub "fill_padding_value(&mut raw_value[size..], padding," => "let vx_f = fill_padding_value(&mut raw_value[size..], padding,"
 //@sub "padding_value)?;" => "padding_value); vx_f?;"
